@@ -175,7 +175,7 @@ func runC17(w *W, i uint64) {
 				}
 			}
 			// completeness
-			if look || (ck.name != "ExtractPrefixes" && ck.name != "ExtractSuffixes") {
+			if look || (ck.name != "ExtractPrefixes" && ck.name != "ExtractSuffixes" && ck.name != "ExtractInner") {
 				continue
 			}
 			for q := 0; q < ck.seq.Len(); q++ {
